@@ -124,14 +124,22 @@ def _impl_range_free(inp):
     from soundevent import arrays
     start, step, n = f(inp["start"]), f(inp["step"]), inp["n"]
     stop = start + n * step
+    if inp["kind"] == "size":            # the step is what the code derives from the size
+        step = (stop - start) / n
+    elif inp["kind"] == "samplerate":    # `step` holds the sample rate
+        sr = step
+        step = 1.0 / sr
+        stop = start + n * step
     fn = {"range": lambda: arrays.create_range_dim("x", start, stop, step=step),
           "time": lambda: arrays.create_time_range(start, stop, step=step),
-          "frequency": lambda: arrays.create_frequency_range(start, stop, step)}[inp["kind"]]
+          "frequency": lambda: arrays.create_frequency_range(start, stop, step),
+          "size": lambda: arrays.create_range_dim("x", start, stop, size=n),
+          "samplerate": lambda: arrays.create_time_range(start, stop, samplerate=sr)}[inp["kind"]]
     v = fn()
     # the library call the trailing-point rule has to cope with, and the threshold as the code computes it
     lib = [float(c) for c in np.arange(start=start, stop=stop, step=step, dtype=np.float64)]
     return {"val": {"coords": [float(c) for c in np.asarray(v.data)], "step": v.attrs.get("step"), "stop": stop,
-                    "arange": lib, "thr": stop - step / 2}}
+                    "arange": lib, "thr": stop - step / 2, "req_step": step}}
 
 
 def _arange_contract(start, step, delta, thr, n, cs):
@@ -146,10 +154,11 @@ def _arange_contract(start, step, delta, thr, n, cs):
 def _holds_range_free(ctx, inp, out):
     if is_err(out):
         return "range request raised: %s" % out["raise"]
-    start, step, n = f(inp["start"]), f(inp["step"]), inp["n"]
+    start, n = f(inp["start"]), inp["n"]
     r = out["val"]
     cs = r["coords"]
-    qs, qd = frac(inp["start"]), frac(inp["step"])
+    step = r["req_step"]                      # the requested step, or the one derived from size / sample rate
+    qs, qd = frac(inp["start"]), Fraction(step)
     # numpy's contract (hypothesis of C16_count_robust), exactly, on what np.arange returned
     lib = [Fraction(c) for c in r["arange"]]
     delta, thr = qd / 5, Fraction(r["thr"])
@@ -162,7 +171,7 @@ def _holds_range_free(ctx, inp, out):
             return (f"{len(cs)} coordinates; C16_count_robust fixes the result to the first {n} points of np.arange "
                     f"(which returned {len(lib)})")
         if n <= 48:   # the same judgement through the Lean definitions (small cases: JSON size)
-            m = ctx.model("range_robust", {"start": inp["start"], "step": inp["step"], "delta": rat(delta),
+            m = ctx.model("range_robust", {"start": inp["start"], "step": rat(qd), "delta": rat(delta),
                                            "thr": rat(thr), "n": n, "cs": rats(lib)})
             if not m["contract"] or m["coords"] != rats(cs):
                 return "Lean's arangeContract / dropTrailingAt disagree with the real output"
@@ -377,8 +386,8 @@ def _range_random_cases(rng, n):
             stop = s0 + size * st
             case = {"kind": "range", "start": rat(s0), "stop": rat(stop), "size": size}
         else:
-            sr = rng.choice([1, 2, 4, 8, 256, 1024])
-            stop = s0 + Fraction(cnt, sr)
+            sr = rng.choice([1, 2, 4, 8, 256, 1024, Fraction(1, 2), Fraction(1, 4), Fraction(1, 8)])
+            stop = s0 + min(cnt, 64) / Fraction(sr)
             case = {"kind": "time", "start": rat(s0), "stop": rat(stop), "samplerate": rat(sr)}
         # the same request with ints / numpy scalars (where that is the same number), float32 coordinates
         ty = rng.choice(["float", "float", "int", "npint", "np64", "np32"])
@@ -428,6 +437,15 @@ def _range_free_cases(ctx):
         s0 = rng.choice(FREE_STARTS + [rng.uniform(-5, 50)])
         yield {"kind": rng.choice(["range", "time", "frequency"]), "start": rat(s0), "step": rat(st),
                "n": rng.randint(1, 2000)}
+    # the step derived from `size=` / `samplerate=` (a rounded quotient): same statement
+    for st in FREE_STEPS:
+        for s0 in (0.0, 0.3, 12.7):
+            for n in (1, 2, 3, 7, 10, 30, 100, rng.randint(1, 1500)):
+                yield {"kind": "size", "start": rat(s0), "step": rat(st), "n": n}
+    for sr in (44100.0, 22050.0, 48000.0, 8000.0, 16000.0, 3.0, 10.0, 1000.0, 96000.0, 0.3):
+        for s0 in (0.0, 0.5, 1.3):
+            for n in (1, 2, 5, 100, 441, rng.randint(1, 1500)):
+                yield {"kind": "samplerate", "start": rat(s0), "step": rat(sr), "n": n}
 
 
 def _axes_pool(rng, n_random):
@@ -604,7 +622,9 @@ def _value(rng, kind, free):
         if vs[j] == 1:
             vs[j] = 2
     n = math.prod(vs)
-    return {"shape": vs, "data": rats(range(100, 100 + n))}
+    data = list(range(100, 100 + n))
+    rng.shuffle(data)
+    return {"shape": vs, "data": rats(data)}
 
 
 def _stage_ranges(ctx):
